@@ -32,11 +32,14 @@ ContainsPct(e) == \E k \in 1 .. Len(e) : e[k] = "%"
 
 JudgeOut(c, i, o) ==
     LET hasargs == o.h = 1
-        asb == /\ c.hist # <<>> /\ o.st # "items" /\ o.ok = 1
+        asb == /\ c.hist # <<>> /\ o.st \notin {"items", "embedded"} /\ o.ok = 1
                /\ LET ab == AsBuiltAfter(c.hist, c.s, o.st)
                   IN ab # AdaptAfter(c.hist, c.s, o.st) /\ ab.ok /\ o.t = ab.text /\ hasargs = ab.hasargs
     IN IF ~i.ok THEN [st |-> o.st, v |-> IF o.ok = 0 THEN "ok" ELSE "bad", refs |-> <<>>, asb |-> asb, merge |-> FALSE]
        ELSE IF o.ok = 0 THEN [st |-> o.st, v |-> "raised", refs |-> <<>>, asb |-> FALSE, merge |-> FALSE]
+       ELSE IF o.st = "embedded"      \* E1: t is the whole statement a qmark driver received for a query containing raw_sql(s)
+            THEN [st |-> o.st, v |-> IF EmbeddedFaithful(c.s, o.t, hasargs) THEN "ok" ELSE "bad",
+                  refs |-> DriverLex("qmark", o.t, hasargs).refs, asb |-> FALSE, merge |-> FALSE]
        ELSE IF o.st = "items"
             THEN [st |-> o.st, v |-> IF o.t = i.mtext /\ (hasargs <=> i.exprs # <<>>) THEN "ok" ELSE "bad", refs |-> <<>>, asb |-> FALSE, merge |-> FALSE]
        ELSE [st |-> o.st, v |-> IF FaithfulTo(i, o.st, o.t, hasargs) THEN "ok" ELSE "bad",
